@@ -14,13 +14,13 @@ import random
 import numpy as np
 from bounded.api import quiet, close, _jsonable
 
-BUDGET = {"quick": 60.0, "thorough": 840.0}
+BUDGET = {"quick": 70.0, "thorough": 840.0}
 
 BOUND = ("distributions: Uniform on 5 intervals, Triangle on 5 (interval, peak) pairs (+ the dedicated family Triangle(10, 10.01, 10.5)), Normal with 4 (mu, sigma) pairs on (-inf,inf), two half-infinite "
          "and two finite intervals; d in {1,2} (d=2: equal intervals where the two dimensions carry the same distribution description, plus one "
          "dedicated family with the same description on different intervals); boundary flag on/off where the support allows (infinite ends: off); "
          "refinement-tree grids with 3..40 points per dimension grown by random / one-sided interval splitting (no interval refined more than 20 times), dyadic or weighted-midpoint, handed to "
-         "set_grid at <=4 stages of the growth; quick 70, thorough ~3000 weight cases (each: staged set_grid on tree A, tree B of the same size on the same objects, tree A again, brand-new objects). Moments: real SpatiallyAdaptiveSingleDimensions2 + "
+         "set_grid at <=4 stages of the growth; quick 70, thorough ~2500 weight cases (time-limited to 40% of the budget) (each: staged set_grid on tree A, tree B of the same size on the same objects, tree A again, brand-new objects). Moments: real SpatiallyAdaptiveSingleDimensions2 + "
          "ErrorCalculatorSingleDimVolumeGuided, d in {1,2} (thorough: also 3), lmax in {2,3}, max_evaluations in 8..160 (refinement histories of 0..6+ "
          "steps), 35% of the runs continued to a second stop with continue_adaptive_refinement, 4 model shapes g, random c, e, K; every stop is queried "
          "4-5 times (default path twice, node-based path, moment queries, default path again) and the stored solutions of all evaluations once; "
@@ -526,7 +526,7 @@ def run(ctx):
                 for fs in (0, 1):
                     weights_case(ctx, setup, tree, 12, fs, family="offset-peak-triangle")
     # weights / midpoints
-    nw = 70 if quick else 3000
+    nw = 70 if quick else 2500
     for i in range(nw):
         if ctx.out_of_time(0.4):
             ctx.note("weight part cut short after %d cases" % i)
